@@ -90,18 +90,52 @@ Fixpoint find_idx {A} (f : A -> bool) (l : list A) (k : N) : option N :=
 
 Definition loop_idle (s : csys) : bool := match loop s with LIdle => true | _ => false end.
 
+(** ** the bounded request channel
+
+    The request channel (a [tokio] mpsc channel inside [rch::mpsc]) holds at most [cap] requests:
+    1 for the remote functions (fixed by [rfn]), the size given to [Server::new] for the rtc servers
+    (512 in the harness: more than a case has ops).  [Server.step] lets requests travel whenever the
+    schedule says so; the schedule of a big step printed here respects the bound:
+      local callers   -- [req_tx.send(req).await] waits for a free slot (FIFO): the request of a call
+                         stays with the call future ([CInit]) until then; a future dropped meanwhile
+                         never sends its request;
+      remote callers  -- the caller's end never waits (the request is on its way at once), the task at
+                         the callee's endpoint that decodes the requests of a port and forwards them
+                         into the channel does: it decodes one request, waits for a free slot, and only
+                         then looks at the port again.  A request behind it stays undecoded -- an
+                         undecodable request is noticed (its caller fails, the receive error is
+                         queued) only when its turn has come.  Requests that have arrived are not lost
+                         with the connection: a cut first lets them through.
+    A channel whose receiver is gone ([LDone]) refuses at once. *)
+Definition is_item (x : qitem arg) : bool := match x with QReq _ | QBad => true | _ => false end.
+Definition queued (s : csys) : N := len (filter is_item (queue s)).
+Definition chan_room (cap : N) (s : csys) : bool :=
+  (queued s + len (wire s) <? cap) || is_done (loop s).
+Definition fwd_room (cap : N) (s : csys) : bool :=
+  (queued s <? cap) || is_done (loop s).
+(** a local call future can hand over its request now (or learns at once that it cannot be sent at all) *)
+Definition can_send (cap : N) (local : bool) (s : csys) (cl : N) : bool :=
+  negb local || chan_room cap s || cut s || qclosed s || negb (client_live s cl).
+
 (** [gone]: the provider of the remote function has been dropped; its task notices that when it is at
     its [select!] (first branch, biased) *)
-Definition next_action (s : csys) (op : list (N * N)) (gone : bool) : option (action arg) :=
-  match find_idx (fun c => match cr_st c with CInit => true | _ => false end) (calls s) 0 with
+Definition next_action (cap : N) (local : bool) (s : csys) (op : list (N * N)) (gone : bool) : option (action arg) :=
+  (* the oldest call future that still holds its request; later ones wait behind it *)
+  match match find_idx (fun c => match cr_st c with CInit => true | _ => false end) (calls s) 0 with
+        | Some i => match get_call s i with
+                    | Some c => if can_send cap local s (cr_client c) then Some i else None
+                    | None => None
+                    end
+        | None => None
+        end with
   | Some i => Some (ASend i)
   | None =>
   match find_idx (fun c => match cr_st c with CDropped => negb (cr_closed c) | _ => false end) (calls s) 0 with
   | Some i => Some (ANotifyClose i)
   | None =>
-  match wire s with
-  | _ :: _ => Some (ADeliverReq 0)
-  | [] =>
+  match (match wire s with _ :: _ => local || fwd_room cap s | [] => false end) with
+  | true => Some (ADeliverReq 0)
+  | false =>
   if gone && loop_idle s then Some (AStop false) else
   if loop_can s op then Some ALoop else
   match find_idx (h_can s op) (tasks s) 0 with
@@ -126,13 +160,13 @@ Definition next_action (s : csys) (op : list (N * N)) (gone : bool) : option (ac
       if all_dead (clients s) && negb (qclosed s) then Some ACloseReqs else None
   end end end end end end end.
 
-Fixpoint settle (fuel : nat) (lim : N) (s : csys) (op : list (N * N)) (gone : bool) : option csys :=
+Fixpoint settle (fuel : nat) (lim cap : N) (local : bool) (s : csys) (op : list (N * N)) (gone : bool) : option csys :=
   match fuel with
   | O => None
   | S f =>
-      match next_action s op gone with
+      match next_action cap local s op gone with
       | None => Some s
-      | Some a => settle f lim (cstep lim s a) op gone
+      | Some a => settle f lim cap local (cstep lim s a) op gone
       end
   end.
 
@@ -223,6 +257,9 @@ Definition slot_busy (s : csys) (excl : bool) : bool :=
 Definition nth_id (ids : list (option N)) (k : N) : option N :=
   match nth_error ids (N.to_nat k) with Some (Some i) => Some i | _ => None end.
 
+(** the request channel of the flavour: [mpsc::channel(1)] in [rfn], [Server::new(target, 512)] in the harness *)
+Definition cap_of (flav : N) : N := if 5 <? flav then 1 else 512.
+
 Definition do_op (flav lim : N) (local : bool) (r : rstate) (o a b c d : N) : option (N * rstate * list (action arg)) :=
   let s := r_sys r in
   match o with
@@ -236,8 +273,10 @@ Definition do_op (flav lim : N) (local : bool) (r : rstate) (o a b c d : N) : op
                 negb (shared_slot flav && slot_busy s excl) in
       if ok then
         let i := len (calls s) in
+        (* the first poll of the call future hands the request over, unless it has to wait for a slot *)
         let acts := [AInvoke cl call]
-                    ++ (if N.testbit d 7 then [ADropCall i] else [ASend i])
+                    ++ (if N.testbit d 7 then [ADropCall i]
+                        else if can_send (cap_of flav) local s cl then [ASend i] else [])
                     ++ (if N.testbit d 6 then [ADropCall i] else [])
                     ++ (match c_kind call with KVal => [ADropClient cl] | _ => [] end) in
         Some (0, mkR s (r_open r) (r_ids r ++ [Some i]) (r_stop r), acts)
@@ -256,7 +295,8 @@ Definition do_op (flav lim : N) (local : bool) (r : rstate) (o a b c d : N) : op
           end
       | None => Some (1, r, [])
       end
-  | 3 => if local then Some (1, r, []) else Some (0, r, [ACut])
+  | 3 => if local then Some (1, r, [])
+         else Some (0, r, repeat (ADeliverReq 0) (length (wire s)) ++ [ACut])
   | 4 =>
       if client_exists s a && negb (shared_slot flav && slot_busy s true)
       then Some (0, r, [ADropClient a]) else Some (1, r, [])
@@ -276,7 +316,7 @@ Fixpoint run_ops (flav lim : N) (local : bool) (r : rstate) (ops : list N) : lis
           let s0 := r_sys r1 in
           let s1 := fold_left (cstep lim) acts s0 in
           (* the provider of a remote function is gone once the stop op was used *)
-          match settle (200 + 40 * length (calls s1)) lim s1 (r_open r1) (r_stop r1 && (5 <? flav)) with
+          match settle (200 + 40 * length (calls s1)) lim (cap_of flav) local s1 (r_open r1) (r_stop r1 && (5 <? flav)) with
           | None => [97]
           | Some s2 => report (5 <? flav) acc s0 s2 ++ run_ops flav lim local (mkR s2 (r_open r1) (r_ids r1) (r_stop r1)) rest
           end
